@@ -563,17 +563,26 @@ def write_format_inputs(tmp):
         'LAYER\n NAME "inc" # comment in include\n TYPE POLYGON\n CLASS NAME "it\'s" STYLE COLOR 1 2 3 END END\nEND\n')
     open(os.path.join(d, "plain.map"), "w", encoding="utf-8").write(
         'MAP NAME "plain" LAYER NAME "l1" TYPE POINT PROCESSING "A=1" PROCESSING "B=2" END END\n')
+    # other working directories to start the command from: one with a decoy include of the same name, one empty
+    os.makedirs(os.path.join(d, "decoy"), exist_ok=True)
+    open(os.path.join(d, "decoy", "inc.map"), "w", encoding="utf-8").write('LAYER\n NAME "decoy"\n TYPE POINT\nEND\n')
+    os.makedirs(os.path.join(d, "empty"), exist_ok=True)
     return d
 
 
-def format_once(d, inp, o, tag):
-    """Returns None when CLI output == save(open(..)) output, else a description."""
+def format_once(d, inp, o, tag, cwd_mode=0):
+    """Returns None when CLI output == save(open(..)) output, else a description.
+    cwd_mode: the command is started in the Mapfile's directory (0), in a directory holding a decoy include
+    of the same name (1) or in an empty directory (2) - the Mapfile's own directory is what INCLUDEs refer to."""
     import mappyfile
     out_cli = os.path.join(d, "out_cli_%s.map" % tag); out_api = os.path.join(d, "out_api_%s.map" % tag)
     for p in (out_cli, out_api):
         if os.path.exists(p):
             os.remove(p)
-    rc, so, se = cli(["format", inp, os.path.basename(out_cli)] + fmt_args(o), d)
+    if cwd_mode == 0:
+        rc, so, se = cli(["format", inp, os.path.basename(out_cli)] + fmt_args(o), d)
+    else:
+        rc, so, se = cli(["format", os.path.join(d, inp), out_cli] + fmt_args(o), os.path.join(d, "decoy" if cwd_mode == 1 else "empty"))
     try:
         dd = mappyfile.open(os.path.join(d, inp), expand_includes=o["expand"], include_comments=o["comments"], include_position=True)
         mappyfile.save(dd, out_api, indent=o["indent"], spacer=unescape(o["spacer"]), quote=unescape(o["quote"]), newlinechar=unescape(o["newlinechar"]))
@@ -613,10 +622,10 @@ def hunt_format(ctx, rng, tmp):
         cases = singles + [dict(FMT_DEFAULT)]
         for _ in range(60):
             cases.append({k: rng.choice(vs) for k, vs in FMT_CHOICES.items()})
-    jobs = [("main.map" if i % 3 != 2 else "plain.map", o, "c%d" % i) for i, o in enumerate(cases)]
-    res = pmap(lambda j: format_once(d, j[0], j[1], j[2]), jobs)
+    jobs = [("main.map" if i % 3 != 2 else "plain.map", o, "c%d" % i, (i // 2) % 3) for i, o in enumerate(cases)]
+    res = pmap(lambda j: format_once(d, j[0], j[1], j[2], j[3]), jobs)
     seen = {k: set() for k in FMT_CHOICES}
-    for (inp, o, tag), r in zip(jobs, res):
+    for (inp, o, tag, cwd_mode), r in zip(jobs, res):
         for k in o:
             seen[k].add(repr(o[k]))
         ctx.note_case("fmt" + repr((inp, sorted(o.items()))), nontrivial=o != FMT_DEFAULT)
@@ -626,11 +635,14 @@ def hunt_format(ctx, rng, tmp):
             for k in FMT_CHOICES:
                 if o[k] != FMT_DEFAULT[k]:
                     o2 = dict(o); o2[k] = FMT_DEFAULT[k]
-                    if format_once(d, inp, o2, tag + "s") is None:
+                    if format_once(d, inp, o2, tag + "s", cwd_mode) is None:
                         need.append(k)
+            if cwd_mode and format_once(d, inp, o, tag + "w", 0) is None:
+                need.append("cwd")
             ctx.violation("format:" + ("+".join(need) if need else "output-differs"),
-                          "`mappyfile format %s OUT %s` differs from save(open(IN)): %s" % (inp, " ".join(map(repr, fmt_args(o))), r),
-                          {"kind": "format", "input": inp, "options": o})
+                          "`mappyfile format %s OUT %s` (started in %s) differs from save(open(IN)): %s"
+                          % (inp, " ".join(map(repr, fmt_args(o))), ["the Mapfile's directory", "a directory with a decoy include", "an empty directory"][cwd_mode], r),
+                          {"kind": "format", "input": inp, "options": o, "cwd_mode": cwd_mode})
     ctx.count("format_invocations", len(jobs))
     ctx.coverage["format_option_values_seen"] = {k: sorted(v) for k, v in seen.items()}
     ctx.sample({"format_args": fmt_args(cases[0])})
@@ -1053,7 +1065,7 @@ def replay(ctx, body):
             return 1 if fails else 0
         if kind == "format":
             d = write_format_inputs(tmp)
-            res = format_once(d, r["input"], r["options"], "r")
+            res = format_once(d, r["input"], r["options"], "r", r.get("cwd_mode", 0))
             print("replay: format", "DIFFERS: %s" % res if res else "agrees")
             return 1 if res else 0
         if kind == "include":
